@@ -396,7 +396,7 @@ def stub_text(st, plain):
     a, kw, bo, bc = rf.find_fn(st['qual'])
     raw = rf.text[a:bc + 1]
     if plain:
-        return transform.strip_attrs_and_vis(raw)
+        return transform.strip_attrs_and_vis(raw, plain=True)
     head = transform.strip_attrs_and_vis(rf.text[a:bo])
     head = re.sub(r'\basync\s+', '', head)
     return '#[verifier::external_body] // AUTO-STUB: callee without a contract (new or not listed in the unit)\n' + head.rstrip() + ' { unimplemented!() }'
